@@ -449,15 +449,13 @@ func (t *Term) putGlyph(g glyph) {
 			return
 		}
 		if t.Autowrap {
-			// xterm: blank the remainder, wrap, print on the next line
-			for c := t.C.Col; c < t.Cols; c++ {
-				t.clearForWrite(t.C.Row, c, 1, false)
-				cells[t.C.Row][c] = Cell{W: 1, Style: t.Pen}
-			}
+			// xterm: the glyph does not fit: wrap first (the cells left
+			// of the edge keep what they show), print on the next line
 			t.lineFeedWrap()
 			cells = t.cur.cells
 		} else {
-			return
+			// no autowrap: the glyph takes the last columns of the line
+			t.C.Col = t.Cols - g.w
 		}
 	}
 	if t.Insert {
@@ -601,8 +599,12 @@ func (t *Term) insertBlank(n int) {
 	if n <= 0 {
 		return
 	}
-	// split glyphs at the insertion point and at the right edge
-	t.clearForWrite(t.C.Row, col, 1, false)
+	// inserting in the middle of a wide glyph (cursor on its right half)
+	// splits it; inserting at its left half just moves it
+	if row[col].W == 0 {
+		t.clearForWrite(t.C.Row, col, 1, false)
+		row[col] = Cell{W: 1, Style: row[col].Style}
+	}
 	copy(row[col+n:], row[col:t.Cols-n])
 	st := t.eraseStyle()
 	for c := col; c < col+n; c++ {
